@@ -119,6 +119,8 @@ impl TableBootstrapInner {
         }
 
         self.state_tx.send(new_state).unwrap_or(());
+        #[cfg(btdht_verif)]
+        crate::verif_log::record(format!("BOOT_STATE {:?} -> {:?}", old_state, new_state));
 
         tracing::info!(
             "{}: TableBootstrap state change {:?} -> {:?} (from_line: {})",
